@@ -47,6 +47,17 @@ Definition expected (e : reqenv) (s : shape) : view :=
   | ShLookup ro ps => mk ps (Some ro) (e_w e) RouteHandler
   end.
 
+(* Param(name): the value of the first parameter called [name] among the
+   parameters of the view (those of the current request's match), the empty
+   string when the current request has no such parameter -- never anything else. *)
+Fixpoint param_named (ps : list param) (name : bytes) : option bytes :=
+  match ps with
+  | [] => None
+  | p :: r => if bytes_eqb (fst p) name then Some (snd p) else param_named r name
+  end.
+Definition expected_param (v : view) (name : bytes) : bytes :=
+  match param_named (v_params v) name with Some x => x | None => [] end.
+
 (* CloneWith(w', r'): match data, route, scope of the parent; request and writer as given *)
 Definition expected_clone_with (parent : view) (r' : request) (w' : wview) : view :=
   mkView (v_params parent) (v_route parent) r' (q_query r') w' (v_scope parent) (v_fox parent).
